@@ -1986,7 +1986,7 @@ def run_compress(case):
     info["via"] = via
     info["L1"] = bool(L == 1)
     info["in_exp"] = bool(in_exp)
-    info["inplace"] = bool(case["inplace"])
+    info["inplace"] = bool(case["inplace"]) or via == "gate_with_mpo"  # (gate_with_mpo compresses its own copy in place)
 
     def call():
         if via == "dispatcher":
